@@ -51,6 +51,36 @@ CHECKS = {
         "trusted as the reader.",
         "DESIGN.md section 4, C03",
     ),
+    "C07": (
+        "exploration",
+        "exhaustive enumeration of (N, batch spec, realisation, shuffle, "
+        "farmer) with a read-back oracle on the batch files",
+        "Every N up to 32 (quick) / 48 (thorough), every batchsize 1..N+1 and "
+        "num_batches 1..N+2, for grids, factorised grids, case lists and "
+        "cases x sub-grid, three shuffle settings, spec at construction or at "
+        "sow, plain and Runner-backed crops: the batch files are unpickled "
+        "and compared with the kwargs of a direct run and with the stated "
+        "arithmetic; complete for the stated bounds.",
+        "Bounded N; shuffle seeds {True, 7}; pickle files are read with the "
+        "standard library.",
+        "DESIGN.md section 4, C07",
+    ),
+    "C09": (
+        "exploration",
+        "exhaustive enumeration of finished-batch subsets with a model "
+        "oracle (batch membership read from disk, placeholder predicate, "
+        "directory digest)",
+        "For crops of 2..5 (quick) / 2..7 (thorough) batches, every remainder "
+        "class and every non-empty proper subset of finished batches is "
+        "realised and reaped with allow_incomplete in nine reap modes / "
+        "result kinds; finished positions must equal the direct run, all "
+        "others must be placeholders, the crop directory must be "
+        "byte-identical, an unqualified reap must be refused, and the "
+        "completed crop must reap exactly.",
+        "Raw reaps are compared in name-sorted argument order (sow_combos' "
+        "documented ordering).",
+        "DESIGN.md section 4, C09",
+    ),
     "C13": (
         "exploration",
         "property-based testing (Hypothesis): pure-numpy reference for "
